@@ -53,7 +53,7 @@ def run(tier, seed, t0):
     floors["meshes_with_concave_hinge"] = (m.bins.get("meshes_with_concave_hinge", 0), 0.2 * meshes)
     floors["meshes_with_flat_hinge"] = (m.bins.get("meshes_with_flat_hinge", 0), 0.02 * meshes)
     floors["meshes_with_face_angle_outside_10_170deg"] = (m.bins.get("meshes_with_face_angle_outside_10_170deg", 0), 0.01 * meshes)
-    floors["meshes_with_needle_triangles"] = (m.bins.get("family:sliver_ico", 0) + m.bins.get("family:sliver_box", 0) + m.bins.get("family:sliver_uvx", 0) + m.bins.get("family:sliver_prism", 0) + m.bins.get("family:sliver_icoell", 0) + m.bins.get("family:sliver_icostar", 0), 0.03 * meshes)
+    floors["meshes_with_needle_triangles"] = (m.bins.get("family:sliver_ico", 0) + m.bins.get("family:sliver_box", 0) + m.bins.get("family:sliver_uvx", 0) + m.bins.get("family:sliver_prism", 0) + m.bins.get("family:sliver_icoell", 0) + m.bins.get("family:sliver_icostar", 0) + m.bins.get("family:sliver_icocup", 0), 0.03 * meshes)
     floors["parallel_cell_evaluations"] = (m.bins.get("cell_evaluations", 0), 40 * npar)
     floors["history_cells_with_unused_face_slots_in_the_middle"] = (m.bins.get("history_cells_with_unused_face_slots_in_the_middle", 0), 0.5 * nh)
     floors["history_node_forces_compared"] = (m.bins.get("history_node_forces_compared", 0), 20 * nh)
